@@ -68,6 +68,8 @@ def generate(run_seed, tier):
         # generator exclusions (known findings, each re-checked by its own probe):
         #  KF-C17-reduction-divisions: a frame reduction reports known divisions before lowering and unknown ones after
         inter = [i for i in inter if not any(by_id[j]["op"] == "reduce" and by_id[j].get("columns") for j in W.cone(recipe, [i]))]
+        #  KF-C10-size-name: groupby(...).size() over empty partitions carries a NaN series name in its lowered form
+        inter = [i for i in inter if not (by_id[i]["op"] == "groupby_agg" and by_id[i].get("fn") == "size")]
         # a cut separates head from tail: the remaining operations may reach the head only through the cut member
         # (a tail that also uses an ancestor of the cut directly mixes re-imported and original lineage, which
         # legitimately changes how the two sides are aligned)
